@@ -294,28 +294,36 @@ Proof. unfold start_autocal. subt. Qed.
 Lemma sub_calibration_failed up k d : sub up d (calibration_failed k d).
 Proof. unfold calibration_failed. cbv zeta. subt. Qed.
 
+Lemma sub_ac_step1 up k d im : sub up d (fst (ac_step1 k d im)).
+Proof.
+  unfold ac_step1. destruct (negb im); [cbn [fst]; subt|].
+  destruct (AUTOCAL_MAX_MS * 1000 <? C10.Model.up_time d); cbn [fst]; [apply sub_calibration_failed|apply sub_refl].
+Qed.
+Lemma sub_ac_step2 up k d im : sub up d (fst (ac_step2 k d im)).
+Proof.
+  unfold ac_step2. destruct (negb im).
+  - destruct (C10.Model.down_time d <? AUTOCAL_MIN_MS * 1000); cbn [fst]; [apply sub_calibration_failed|]. unfold ac_step2_ok. subt.
+  - destruct (AUTOCAL_MAX_MS * 1000 <? C10.Model.down_time d); cbn [fst]; [apply sub_calibration_failed|apply sub_refl].
+Qed.
+Lemma sub_ac_step3 up k d im : sub up d (fst (ac_step3 k d im)).
+Proof.
+  unfold ac_step3. destruct (negb im).
+  - destruct (C10.Model.up_time d <? AUTOCAL_MIN_MS * 1000); cbn [fst]; [apply sub_calibration_failed|].
+    (* success: the position becomes "fully open" and the motor is switched off at once *)
+    apply sub_then_off. unfold same_frame, ac_done. destruct (tilt_sup k); fld; repeat split; reflexivity.
+  - destruct (AUTOCAL_MAX_MS * 1000 <? C10.Model.up_time d); cbn [fst]; [apply sub_calibration_failed|apply sub_refl].
+Qed.
 Lemma sub_autocalibrate up k d im : sub up d (fst (autocalibrate k d im)).
 Proof.
   unfold autocalibrate.
-  destruct (ac_step d =? 0); [cbn [fst]; subt|]. cbv zeta.
-  destruct ((up_time (fl_set d FLAG_CALIBRATION_IN_PROGRESS) <? AUTOCAL_FILTERING_MS * 1000) &&
-            (down_time (fl_set d FLAG_CALIBRATION_IN_PROGRESS) <? AUTOCAL_FILTERING_MS * 1000)); [cbn [fst]; subt|].
-  set (d1 := fl_set d FLAG_CALIBRATION_IN_PROGRESS).
-  assert (S1 : sub up d d1) by (unfold d1; subt).
-  destruct (ac_step d1 =? 1).
-  { destruct (negb im); [cbn [fst]; eapply sub_trans; [exact S1|]; subt|].
-    destruct (AUTOCAL_MAX_MS * 1000 <? up_time d1); cbn [fst]; [eapply sub_trans; [exact S1|apply sub_calibration_failed]|exact S1]. }
-  destruct (ac_step d1 =? 2).
-  { destruct (negb im).
-    - destruct (down_time d1 <? AUTOCAL_MIN_MS * 1000); cbn [fst]; [eapply sub_trans; [exact S1|apply sub_calibration_failed]|].
-      eapply sub_trans; [exact S1|]. subt.
-    - destruct (AUTOCAL_MAX_MS * 1000 <? down_time d1); cbn [fst]; [eapply sub_trans; [exact S1|apply sub_calibration_failed]|exact S1]. }
-  destruct (ac_step d1 =? 3); [|cbn [fst]; exact S1].
-  destruct (negb im).
-  - destruct (up_time d1 <? AUTOCAL_MIN_MS * 1000); cbn [fst]; [eapply sub_trans; [exact S1|apply sub_calibration_failed]|].
-    (* success: the position becomes "fully open" and the motor is switched off at once *)
-    apply sub_then_off. unfold same_frame, d1. destruct (tilt_sup k); fld; repeat split; reflexivity.
-  - destruct (AUTOCAL_MAX_MS * 1000 <? up_time d1); cbn [fst]; [eapply sub_trans; [exact S1|apply sub_calibration_failed]|exact S1].
+  destruct (ac_step d =? 0); [cbn [fst]; subt|].
+  eapply sub_trans; [apply (sub_fl_set up d FLAG_CALIBRATION_IN_PROGRESS)|].
+  unfold ac_steps.
+  destruct ((C10.Model.up_time (fl_set d FLAG_CALIBRATION_IN_PROGRESS) <? AUTOCAL_FILTERING_MS * 1000) &&
+            (C10.Model.down_time (fl_set d FLAG_CALIBRATION_IN_PROGRESS) <? AUTOCAL_FILTERING_MS * 1000)); [cbn [fst]; apply sub_refl|].
+  destruct (ac_step (fl_set d FLAG_CALIBRATION_IN_PROGRESS) =? 1); [apply sub_ac_step1|].
+  destruct (ac_step (fl_set d FLAG_CALIBRATION_IN_PROGRESS) =? 2); [apply sub_ac_step2|].
+  destruct (ac_step (fl_set d FLAG_CALIBRATION_IN_PROGRESS) =? 3); [apply sub_ac_step3|cbn [fst]; apply sub_refl].
 Qed.
 
 Lemma sub_cb_head up k d : sub up d (cb_head k d).
